@@ -267,7 +267,22 @@ def skip_forwarding(ctx: Ctx, rep: Report, rid: str = "R11.6") -> None:
                 i = params.index("skip") if "skip" in params else -1
                 if 0 <= i < len(call.args):
                     val = call.args[i]
-            if val is not None and src(val) == "skip":
+            # `skip_ = list(skip or [])` handed on: the same options as a list (a copy, None read as "none given")
+            def same_options(v: Optional[ast.AST], depth: int = 0) -> bool:
+                if v is None or depth > 3:
+                    return False
+                if src(v) == "skip":
+                    return True
+                if isinstance(v, ast.Call) and isinstance(v.func, ast.Name) and v.func.id in ("list", "tuple") and len(v.args) == 1 and not v.keywords:
+                    return same_options(v.args[0], depth + 1)
+                if isinstance(v, ast.BoolOp) and isinstance(v.op, ast.Or) and len(v.values) == 2 and isinstance(v.values[1], (ast.List, ast.Tuple)) and not v.values[1].elts:
+                    return same_options(v.values[0], depth + 1)
+                if isinstance(v, ast.Name):
+                    binds = [x.value for x in own_nodes(f.node) if isinstance(x, (ast.Assign, ast.AnnAssign)) and x.value is not None and any(isinstance(t, ast.Name) and t.id == v.id for t in (x.targets if isinstance(x, ast.Assign) else [x.target]))]
+                    return len(binds) == 1 and v.id not in f.params and same_options(binds[0], depth + 1)
+                return False
+
+            if same_options(val):
                 rep.ok(f"{f.qualname} -> {g.qualname}", "skip forwarded unchanged", where=where(f, call))
             else:
                 rep.violation(f.qualname, snippet(call), f"the skip options are not handed on to {g.qualname} ({'not passed: the default applies' if val is None else 'another value: ' + snippet(val)}): this entry point answers as if no option had been given", where(f, call), inp="Acl.shadow_of(skip=['nc_wildcard']) vs Acl.shading(skip=['nc_wildcard'])")
